@@ -328,6 +328,18 @@ def described_pda(text):
             'delta': sorted([p, l[0], l[2], q, l[3]] for p, l, q in set(trans))}
 
 
+def described_tm(text):
+    items, trans = _read_description(text)
+    acc, rej = items['accept'][0], items['reject'][0]
+    used = set(items.get('initial', [])) | {p for p, _, _ in trans} | {q for _, _, q in trans}
+    Q = set(items['states']) if 'states' in items else used | {acc, rej}
+    blank = items['blank'][0] if 'blank' in items else ('□' if any('□' in l for _, l, _ in trans) else '_')
+    tape = set(items['tape_symbols']) if 'tape_symbols' in items else ({l[0] for _, l, _ in trans} | {l[1] for _, l, _ in trans})
+    Sigma = set(items['input_symbols']) if 'input_symbols' in items else tape - {blank}
+    return {'Q': sorted(Q), 'Sigma': sorted(Sigma), 'Gamma': sorted(tape | {blank}),
+            'delta': sorted([p, l[0], q, l[1], l[3]] for p, l, q in trans), 'q0': items['initial'][0], 'q_accept': acc, 'q_reject': rej, 'blank': blank}
+
+
 def summary_of(kind, obj):
     if kind == 'pda':
         j = pda_json_of(obj)
